@@ -66,7 +66,9 @@ class C15(Prop):
             # inputs: mapping nodes along the path receive lists: give every graph input `x` a list when the ROOT maps, else scalar
             top_map = rng.random() < 0.3
             yield {"program": program, "depth": s["depth"], "top_map": top_map, "items": rng.randint(1, 4), "k": rng.randint(1, 4),
-                   "policy": rng.choice(["lifo", "fifo", "random"]), "seed": rng.randint(0, 10**6)}
+                   "policy": rng.choice(["lifo", "fifo", "random"]), "seed": rng.randint(0, 10**6),
+                   # an earlier run in the same task, with a LARGER limit, that ended abnormally (its limiter must not outlive it)
+                   "prior": rng.choice([None, None, "fail", "fail-continue", "pause"])}
 
     @staticmethod
     def _values(case: dict) -> list:
@@ -78,12 +80,13 @@ class C15(Prop):
         env = Env()
         ctl = sched.Controller(policy, case["seed"])
         vals = self._values(case)
+        prelude = impl.prior_run(case["prior"], (k or 0) + 3) if case.get("prior") and k is not None else None
         try:
             if case["top_map"] and not any(n.get("mapOver") for g in case["program"] for n in g["nodes"]):
-                o = impl.map_case(case["program"], vals, ["x"], "zip", "raise", {}, "async", max_concurrency=k, ctl=ctl, env=env)
+                o = impl.map_case(case["program"], vals, ["x"], "zip", "raise", {}, "async", max_concurrency=k, ctl=ctl, env=env, prelude=prelude)
                 res = {"status": "ok" if o["raised"] is None else "raised:" + str(o["raised"]), "values": [r["values"] for r in o["results"]]}
             else:
-                o = impl.run_case(case["program"], None, vals, {}, "async", max_concurrency=k, ctl=ctl, env=env)
+                o = impl.run_case(case["program"], None, vals, {}, "async", max_concurrency=k, ctl=ctl, env=env, prelude=prelude)
                 res = {"status": o["status"], "values": o["values"], "error": o["error"]}
         except sched.Deadlock:
             res = {"status": "deadlock", "values": []}
